@@ -30,28 +30,49 @@ def cleanup():
 _sym_cache = {}
 
 
+_EMPTY = frozenset()
+
+
 def symbols(t):
-    """set of uninterpreted constant/function names in term t (cached by ast id)"""
+    """set of uninterpreted constant/function names in term t; memoised per DAG node (the node is kept
+    alive in the cache because z3 reuses ast ids after collection)"""
     k = t.get_id()
     r = _sym_cache.get(k)
     if r is not None:
         return r[1]
-    out = set()
-    seen = set()
-    stack = [t]
+    stack = [(t, False)]
     while stack:
-        x = stack.pop()
+        x, done = stack.pop()
         i = x.get_id()
-        if i in seen:
+        if i in _sym_cache:
             continue
-        seen.add(i)
-        if z3.is_app(x):
-            d = x.decl()
-            if d.kind() == z3.Z3_OP_UNINTERPRETED:
-                out.add(d.name())
-            stack.extend(x.children())
-    _sym_cache[k] = (t, out)   # keep the term alive: ast ids are reused after collection
-    return out
+        if not z3.is_app(x):
+            _sym_cache[i] = (x, _EMPTY)
+            continue
+        ch = x.children()
+        if not done:
+            stack.append((x, True))
+            for c in ch:
+                if c.get_id() not in _sym_cache:
+                    stack.append((c, False))
+            continue
+        d = x.decl()
+        own = None
+        if d.kind() == z3.Z3_OP_UNINTERPRETED:
+            own = d.name()
+        sets = [_sym_cache[c.get_id()][1] for c in ch]
+        big = _EMPTY
+        for s_ in sets:
+            if len(s_) > len(big):
+                big = s_
+        res = big
+        for s_ in sets:
+            if s_ is not big and not s_ <= res:
+                res = res | s_
+        if own is not None and own not in res:
+            res = res | frozenset((own,))
+        _sym_cache[i] = (x, res)
+    return _sym_cache[k][1]
 
 
 def relevant(assumptions, terms):
@@ -59,6 +80,8 @@ def relevant(assumptions, terms):
     need = set()
     for t in terms:
         need |= symbols(t)
+    if len(_sym_cache) > 3000000:
+        _sym_cache.clear()
     asyms = [symbols(a) for a in assumptions]
     used = [False] * len(assumptions)
     changed = True
